@@ -147,6 +147,9 @@ const ZERO_U32: AtomicU32 = AtomicU32::new(0);
 const ZERO_ROW: [AtomicU32; N_CLASSES] = [ZERO_U32; N_CLASSES];
 static ROLE_COUNTS: [[AtomicU32; N_CLASSES]; MAX_ROLES] = [ZERO_ROW; MAX_ROLES];
 pub static OPS_DONE: AtomicU64 = AtomicU64::new(0);
+/// role given to threads that never called `set_role` (0 = none); lets plans reach threads the
+/// harness does not create itself (the server's blocking pool)
+static DEFAULT_ROLE: AtomicU32 = AtomicU32::new(0);
 static FIRED_PERTURB: AtomicU32 = AtomicU32::new(0);
 
 thread_local! {
@@ -300,7 +303,10 @@ extern "C" fn pre_cb(ev: *const Event, act: *mut Action) {
     }
     // ---- perturbation
     if PLAN_ACTIVE.load(SeqCst) {
-        let role = ROLE.with(|c| c.get());
+        let mut role = ROLE.with(|c| c.get());
+        if role == 0 {
+            role = DEFAULT_ROLE.load(SeqCst) as u8;
+        }
         if role != 0 && (role as usize) < MAX_ROLES {
             let file = if ev.kind == EV_OPEN || ev.kind == EV_UNLINK {
                 rel_of(ev.path).0
@@ -521,6 +527,10 @@ pub fn plan_clear() -> u32 {
     PLAN_ACTIVE.store(false, SeqCst);
     PLAN.lock().unwrap().clear();
     FIRED_PERTURB.load(SeqCst)
+}
+
+pub fn set_default_role(r: u8) {
+    DEFAULT_ROLE.store(r as u32, SeqCst);
 }
 
 pub fn op_done() {
